@@ -606,6 +606,17 @@ Proof.
   destruct He as [-> |[-> |[-> |[-> | ->]]]]; assumption.
 Qed.
 
+(* ... and the three residual statistics (rolling2_apply_idx, both bodies) *)
+Theorem C04_resid_below_min_periods_null_any_carrier :
+  forall (A : Type) (NA : Num A) (T1 : Type) (D1 : IsNone T1 A) (T2 : Type) (D2 : IsNone T2 A)
+         (k : rstat) (body : bool) (w : nat) (mp : option nat) (xs : list T1) (ys : list T2),
+    1 <= w -> (body = false \/ length xs <= length ys) ->
+    exists out, ts_vregx_resid k body w mp xs ys = Done out /\ length out = common xs ys /\
+      forall i, i < common xs ys ->
+        npairs (D1 := D1) (D2 := D2) (combine (win w i xs) (win w i ys)) < mp_eff mp w 0 ->
+        nth_error out i = Some nnan.
+Proof. intros A NA T1 D1 T2 D2 k body w mp xs ys. apply resid_below_min_periods_null. Qed.
+
 (* ---- (12) "a perfect linear window has zero residual", end to end on the two-series model: if the pairwise-complete
          observations of the window at position i lie on a = c + d b with a non-constant regressor, the triple is
          (c, d, 0), alpha = c, beta = d and the residual mean / std / skew (>= 3 observations) are 0 ---- *)
@@ -643,8 +654,10 @@ Qed.
 Example C04_example_below_min_periods_binary64 :
   let xs := [1%float; nan; 3%float] in let ys := [Some 2%float; Some 5%float; None] in
   npairs (combine (win 3 2 xs) (win 3 2 ys)) = 1 /\ mp_eff None 3 2 = 2 /\
-  ts_run2 (ts_vcov_f (A := float) 3 None) true 3 xs ys = Done [nan; nan; nan].
-Proof. vm_compute. repeat split. Qed.
+  ts_run2 (ts_vcov_f (A := float) 3 None) true 3 xs ys = Done [nan; nan; nan] /\
+  npairs (combine (win 3 2 xs) (win 3 2 ys)) < mp_eff (Some 2) 3 0 /\
+  ts_vregx_resid RStd false 3 (Some 2) xs ys = Done [nan; nan; nan].
+Proof. vm_compute. repeat split; repeat constructor. Qed.
 
 (* a perfect linear window with a null in each series: the premises of C04_perfect_window_regx are satisfiable *)
 Example C04_example_perfect_window :
@@ -702,3 +715,4 @@ Print Assumptions C04_below_min_periods_null_any_carrier.
 Print Assumptions C04_count_at_XR.
 Print Assumptions C04_trend_below_min_periods_null_any_carrier.
 Print Assumptions C04_perfect_window_regx.
+Print Assumptions C04_resid_below_min_periods_null_any_carrier.
